@@ -53,7 +53,7 @@ class WireManagerBase(abc.ABC):
     def length(self) -> float:
         """Returns length for each wire of this axis; to be used
         for grading calculation"""
-        return sum(wire.edge.length for wire in self.wires) / 4
+        return sum(wire.length for wire in self.wires) / 4
 
     @property
     def is_simple(self) -> bool:
